@@ -149,6 +149,34 @@ func genC13Tail(r *rng, n int, w *bufio.Writer) {
 			hosts = append(hosts, h)
 			lines = append(lines, pick(r, []string{"||" + h + "^", "0.0.0.0 " + h, "||" + h + "^$important", h}))
 		}
+		if i%5 == 2 {
+			// one LONG line (beyond the 4 KiB read buffer; 1 in 3 of them 64 KiB .. 200 KiB, around the 65536 limit
+			// of a standard line scanner): a hosts line naming many hosts, a rule with a long $denyallow list or a
+			// hosts line with a long comment
+			n := pick(r, []int{4090, 4096, 4100, 8192, 8200, 12000, 30000, 65000})
+			if r.chance(1, 3) {
+				n = pick(r, []int{65530, 65535, 65536, 65537, 65540, 70000, 131072, 131080, 200000})
+			}
+			j := r.n(k)
+			h := hosts[j]
+			var sb strings.Builder
+			switch r.n(3) {
+			case 0:
+				sb.WriteString("0.0.0.0 " + h)
+				for m := 0; sb.Len() < n; m++ {
+					fmt.Fprintf(&sb, " alias%d.%s", m, h)
+				}
+			case 1:
+				sb.WriteString("||" + h + "^$denyallow=")
+				for m := 0; sb.Len() < n; m++ {
+					fmt.Fprintf(&sb, "a%d.%s|", m, h)
+				}
+				sb.WriteString("z." + h)
+			default:
+				sb.WriteString("0.0.0.0 " + h + " # " + strings.Repeat("c", n))
+			}
+			lines[j] = sb.String()
+		}
 		content := strings.Join(lines, pick(r, []string{"\n", "\r\n"})) // no newline after the last line
 		path := filepath.Join(dir, fmt.Sprintf("l%d.txt", i))
 		if os.WriteFile(path, []byte(content), 0o600) != nil {
@@ -167,18 +195,33 @@ func genC13Tail(r *rng, n int, w *bufio.Writer) {
 		order := append([]string{}, hosts...)
 		shuffle(r, order)
 		order = append(order, hosts[len(hosts)-1], hosts[0])
+		// the same content as an in-memory list: "indistinguishable to scanners, retrieval and engines"
+		ms, _ := filterlist.NewRuleStorage([]filterlist.RuleList{&filterlist.StringRuleList{ID: 1, RulesText: content}})
+		me := urlfilter.NewDNSEngine(ms)
 		diff := ""
 		for _, h := range order {
 			fe, fs := mk()
-			got, want := scaleDNSAnswer(e, h), scaleDNSAnswer(fe, h)
+			got, want, mem := scaleDNSAnswer(e, h), scaleDNSAnswer(fe, h), scaleDNSAnswer(me, h)
 			_ = fs.Close()
 			if got != want && diff == "" {
-				diff = fmt.Sprintf("query %s: after history %s, fresh engine %s", h, got, want)
+				diff = fmt.Sprintf("query %s: after history %s, fresh engine %s", h, c13Short(got), c13Short(want))
+			}
+			if got != mem && diff == "" {
+				diff = fmt.Sprintf("query %s: file-backed list %s, in-memory list of the same content %s", h, c13Short(got), c13Short(mem))
 			}
 		}
 		_ = st.Close()
-		fmt.Fprintf(w, "assert c13.tail %s = %s ## file list %q; %s\n", wb(content), wbool(diff == ""), content, noteStr(diff))
+		fmt.Fprintf(w, "assert c13.tail %s = %s ## file list %s; %s\n", wb(content), wbool(diff == ""), c13Short(fmt.Sprintf("%q", content)), noteStr(diff))
 	}
+}
+
+// c13Short abbreviates a long text for a note.
+func c13Short(s string) string {
+	if len(s) <= 600 {
+		return s
+	}
+
+	return fmt.Sprintf("%s…(%d bytes)…%s", s[:300], len(s), s[len(s)-200:])
 }
 
 func scaleDNSAnswer(e *urlfilter.DNSEngine, host string) string {
